@@ -200,6 +200,10 @@ def show_key(k):
         return f"({show_poly(n)})/({show_poly(d)})"
     if isinstance(k, tuple) and k and k[0] == "mono":
         return show_mono(k[1])
+    if isinstance(k, tuple) and k and k[0] == "tuple":
+        return "(" + ", ".join(show_key(z) for z in k[1:]) + ")"
+    if isinstance(k, tuple) and len(k) == 2 and k[0] == "py":
+        return repr(k[1])
     return repr(k)
 
 
@@ -469,6 +473,8 @@ def wrap_axis(x, tag):
             return Rat.atom(a)
         if a[0] in ("col", "row"):
             raise AnalysisError("nested axis wrappers are outside the fragment")
+        if a[0] == "sqrt":
+            return sqrt_of(wrap_axis(_SQRT_RADICANDS[a], tag))
         return Rat.atom((tag, a))
     return map_atoms(x, f)
 
@@ -484,6 +490,8 @@ def transpose(x):
             return Rat.atom(("col", a[1]))
         if a[0] == "T":
             return Rat.atom(a[1])
+        if a[0] == "sqrt":
+            return sqrt_of(transpose(_SQRT_RADICANDS[a]))
         return Rat.atom(("T", a))
     return map_atoms(x, f)
 
